@@ -12,6 +12,8 @@ def negotiate(ours: dict, theirs: dict) -> dict:
     for f in set(ours.get('addpath', {})) | set(theirs.get('addpath', {})):
         o = ours.get('addpath', {}).get(f, 0)
         t = theirs.get('addpath', {}).get(f, 0)
+        if t not in (1, 2, 3):
+            t = 0  # RFC 7911 section 4: any other Send/Receive value is not understood and ignored
         send[f] = bool(o & 2) and bool(t & 1)
         recv[f] = bool(o & 1) and bool(t & 2)
     return {
